@@ -485,6 +485,9 @@ impl<C: Config, Q: Query> Snapshot<C, Q> {
 
         let last_verified = self.last_verified().await;
 
+        #[cfg(feature = "verif_hooks")]
+        crate::engine::verif::yield_point("computing::after_double_check").await;
+
         let (mode, query_kind) = if let Some(last_verified) = last_verified {
             let kind = self.query_kind().await.unwrap();
 
@@ -631,8 +634,14 @@ impl<C: Config, Q: Query> Snapshot<C, Q> {
         caller_information: &CallerInformation,
         mut lock_guard: ComputingLockGuard<C>,
     ) {
+        #[cfg(feature = "verif_hooks")]
+        crate::engine::verif::yield_point("clean::before_upgrade").await;
+
         self.upgrade_to_exclusive().await;
         let timsestamp = caller_information.timestamp();
+
+        #[cfg(feature = "verif_hooks")]
+        crate::engine::verif::yield_point("clean::after_upgrade").await;
 
         async move {
             self.clean_query(clean_edges, new_tfc, timsestamp).await;
